@@ -244,3 +244,188 @@ def run(repo, rep, tier):
         rep.finding(r3, slc.qualname, 'closure', 'subclasses-lc', MAIN,
                     slc.node.lineno, '_subclasses_lc is not the lower-cased '
                     'deep subclass closure including the class itself')
+
+    _filter_rules(repo, rep, mp)
+
+
+FILTER_NAMES = {'role', 'result_role', 'result_class', 'result_classes',
+                'resultclasses', 'resultclass_names', 'assoc_class',
+                'assoc_classes'}
+# which end of the association a filter constrains
+SOURCE_END = {'role', 'assoc_class', 'assoc_classes'}
+RESULT_END = {'result_role', 'result_class', 'result_classes'}
+
+
+FAMILIES = [{'role'}, {'result_role'},
+            {'result_class', 'result_classes', 'resultclasses',
+             'resultclass_names'},
+            {'assoc_class', 'assoc_classes'}]
+MATCH_HELPERS = ('self._ref_prop_matches', 'self._assoc_prop_matches')
+
+
+def _family(name):
+    for fam in FAMILIES:
+        if name in fam:
+            return fam
+    return {name}
+
+
+def _names_in(e):
+    """names used in e, not counting arguments handed to the two match
+    helpers (which are judged on their own)"""
+    skip = set()
+    for c in ast.walk(e):
+        if isinstance(c, ast.Call) and dotted(c.func) in MATCH_HELPERS:
+            for a in c.args:
+                skip.update(id(x) for x in ast.walk(a))
+    return {x.id for x in ast.walk(e) if isinstance(x, ast.Name)
+            and id(x) not in skip}
+
+
+def _only_removes(stmts):
+    """the statements only drop the candidate (continue / return False),
+    possibly under further tests, or validate the filter value"""
+    for st in stmts:
+        if isinstance(st, ast.Continue):
+            continue
+        if isinstance(st, ast.Return) and isinstance(st.value, ast.Constant) \
+                and st.value.value is False:
+            continue
+        if isinstance(st, ast.If) and not st.orelse and \
+                _only_removes(st.body):
+            continue
+        if isinstance(st, ast.Expr) and isinstance(st.value, ast.Call) and \
+                (dotted(st.value.func) or '').startswith('self._validate_'):
+            continue
+        return False
+    return True
+
+
+def _requires_truthy(test, name):
+    """`name and ...` / `name`: the test is false whenever name is None"""
+    if isinstance(test, ast.Name):
+        return test.id == name
+    if isinstance(test, ast.BoolOp) and isinstance(test.op, ast.And):
+        return any(_requires_truthy(v, name) for v in test.values)
+    return False
+
+
+def _filter_rules(repo, rep, mp):
+    from ..cfg import stmt_facts
+    r4 = rep.rule('C13.R4', 'filters only remove candidates, None means no '
+                  'filter, and each filter is applied to its own end of the '
+                  'association')
+    funcs = ['_ref_prop_matches', '_assoc_prop_matches',
+             '_get_reference_classnames', '_get_reference_instnames',
+             '_get_associated_classnames', '_get_associated_instancenames']
+    ntests = 0
+    for fn in funcs:
+        f = mp.methods.get(fn)
+        if f is None:
+            raise AnalysisError('MainProvider.%s vanished' % fn)
+        r4.functions.add(f.fq)
+        facts = stmt_facts(f.node)
+        for st in facts:
+            if not isinstance(st, ast.If):
+                continue
+            used = _names_in(st.test) & FILTER_NAMES
+            if not used:
+                continue
+            # enclosing `if <filter>:` also counts as the truthiness guard
+            outer = {n for t, p in facts[st][0] if p
+                     for n in _names_in(t) & FILTER_NAMES
+                     if _requires_truthy(t, n)}
+            for name in sorted(used):
+                ntests += 1
+                r4.sites += 1
+                # the lower-cased expansions come from _subclasses_lc(x),
+                # falsy exactly when the filter is None
+                fam = _family(name)
+                guard = any(_requires_truthy(st.test, n2) for n2 in fam) \
+                    or bool(fam & outer)
+                removes = _only_removes(st.body) and not st.orelse
+                ok = guard and removes
+                r4.ob(ok, '%s|%s|%s' % (fn, norm(st.test, 60), name),
+                      {'function': fn, 'test': norm(st.test, 80),
+                       'filter': name, 'none_means_no_filter': guard,
+                       'only_removes': removes})
+                if not ok:
+                    rep.finding(
+                        r4, f.qualname, norm(st.test, 60), 'filter-' + name,
+                        MAIN, st.lineno,
+                        ('the test does not require %s to be set: a call '
+                         'without this filter is filtered too' % name)
+                        if not guard else
+                        ('the branch taken when filter %s matches does more '
+                         'than dropping the candidate: adding the filter '
+                         'can add results' % name))
+    if ntests < 12:
+        raise AnalysisError('only %d association filter tests found'
+                            % ntests)
+    # end placement at instance level
+    ai = mp.methods['_get_associated_instancenames']
+    facts = stmt_facts(ai.node)
+    srcp = ai.params[2] if ai.params[0] == 'self' else ai.params[1]
+    src_test = 'prop.value == %s' % srcp
+
+    def has(fs, text, pol):
+        return any(norm(t) == text and p == pol for t, p in fs)
+    adds = [st for st in facts if isinstance(st, ast.Expr) and
+            isinstance(st.value, ast.Call) and
+            norm(st.value.func).endswith('.add')]
+    r4.sites += 1
+    ok = len(adds) == 1 and has(facts[adds[0]][0], src_test, False) and \
+        has(facts[adds[0]][0], "prop.type == 'reference'", True) and \
+        norm(adds[0].value.args[0]) == 'prop.value'
+    r4.ob(ok, '_get_associated_instancenames|add',
+          {'add': [norm(a) for a in adds],
+           'facts': [(norm(t, 40), p) for t, p in
+                     (facts[adds[0]][0] if adds else ())]})
+    if not ok:
+        rep.finding(r4, ai.qualname, 'rtn_instpaths.add', 'other-end', MAIN,
+                    adds[0].lineno if adds else ai.node.lineno,
+                    'an associated instance must be the value of a '
+                    'reference property of the association instance other '
+                    'than the one that points at the source instance')
+    for st in facts:
+        if not isinstance(st, ast.If) or st.test is None:
+            continue
+        used = _names_in(st.test) & (SOURCE_END | RESULT_END)
+        if not used or norm(st.test) in (src_test,):
+            continue
+        fs = facts[st][0]
+        if not has(fs, "prop.type == 'reference'", True):
+            continue
+        r4.sites += 1
+        want_src = bool(used & SOURCE_END)
+        ok = has(fs, src_test, want_src) and not (used & SOURCE_END and
+                                                  used & RESULT_END)
+        r4.ob(ok, '_get_associated_instancenames|end|' + norm(st.test, 50),
+              {'test': norm(st.test, 80),
+               'applies_to': 'source end' if want_src else 'result end'})
+        if not ok:
+            rep.finding(r4, ai.qualname, norm(st.test, 60), 'wrong-end',
+                        MAIN, st.lineno,
+                        'filter %s is applied to the wrong end of the '
+                        'association (Role/AssocClass constrain the '
+                        'reference to the source, ResultRole/ResultClass '
+                        'the other reference)' % ', '.join(sorted(used)))
+    ri = mp.methods['_get_reference_instnames']
+    facts = stmt_facts(ri.node)
+    srcp = ri.params[2] if ri.params[0] == 'self' else ri.params[1]
+    adds = [st for st in facts if isinstance(st, ast.Expr) and
+            isinstance(st.value, ast.Call) and
+            norm(st.value.func).endswith('.add')]
+    r4.sites += 1
+    ok = len(adds) == 1 and has(facts[adds[0]][0],
+                                'prop.value == %s' % srcp, True) and \
+        has(facts[adds[0]][0], "prop.type == 'reference'", True) and \
+        norm(adds[0].value.args[0]) == 'inst.path'
+    r4.ob(ok, '_get_reference_instnames|add',
+          {'add': [norm(a) for a in adds]})
+    if not ok:
+        rep.finding(r4, ri.qualname, 'rtn_instpaths.add', 'reference', MAIN,
+                    adds[0].lineno if adds else ri.node.lineno,
+                    'a referencing instance is one with a reference '
+                    'property whose value is the source instance; its own '
+                    'path is returned')
